@@ -33,7 +33,7 @@ REL = None
 
 
 def floors(tier):
-    return {"requests": 20000, "repeat_requests_checked": 2000, "fd_grads_compared": 2000, "histories_over_points_one_ulp_apart": 200, "histories_with_transient_faults": 400, "histories_with_user_relative_step": 300, "solver_runs_logged": 40,
+    return {"requests": 20000, "repeat_requests_checked": 2000, "fd_grads_compared": 2000, "histories_over_points_one_ulp_apart": 200, "histories_with_transient_faults": 400, "histories_with_user_relative_step": 300, "solver_runs_logged": 60, "solver_restart_legs_logged": 20, "wrapper_answers_checked_inside_solver_runs": 2000,
             "requests_failing_in_the_user_function": 300, "__nontrivial__": 100}
 
 
@@ -308,57 +308,164 @@ def cases(tier, seed):
     nrand = 320 if tier == "quick" else 3200
     for i in range(nrand):
         yield {"kind": "random", "mode": MODES[i % 5], "seed": subseed("C15r", seed, i) % (2**31), "count": 16}
-    for i in range(96 if tier == "quick" else 3000):
-        yield {"kind": "solver", "mode": "callable", "seed": subseed("C15s", seed, i) % (2**31)}
+    for i in range(160 if tier == "quick" else 4000):
+        scen = ("plain", "scaler", "restart", "far_restart", "nan_domain")[i % 5]
+        yield {"kind": "solver", "mode": "callable" if (scen != "nan_domain" or i % 2 == 0) else ("2-point", None)[(i // 10) % 2],
+               "scenario": scen, "seed": subseed("C15s", seed, i) % (2**31)}
     nint = 200 if tier == "quick" else 3000
     for i in range(nint):
         yield {"kind": "interleaved", "modes": [MODES[i % 5], MODES[(i // 5 + 1 + i) % 5]], "seed": subseed("C15i", seed, i) % (2**31), "count": 8}
 
 
+class AnswerMonitor:
+    """Rebinds the three accessors of the wrapper class for the duration of a solver run: every answer the solver receives is compared
+    with a fresh evaluation of the (pure) user functions at the requested point times the wrapper's current scaling factor."""
+
+    def __init__(self, out, f, g, exact_gradient):
+        import lbfgsb.scalar_function as S
+
+        self.S, self.out, self.f, self.g, self.exact = S, out, f, g, exact_gradient
+        self.saved = {}
+
+    def __enter__(self):
+        cls = self.S.ScalarFunction
+        mon = self
+
+        def wrap(name):
+            orig = getattr(cls, name)
+            mon.saved[name] = orig
+
+            def method(sf, x):
+                xr = np.array(x, dtype=float, copy=True)
+                ans = orig(sf, x)
+                fac = sf.scaling_factor
+                mon.out.count("wrapper_answers_checked_inside_solver_runs")
+                af = ans if name == "fun" else (ans[0] if name == "fun_and_grad" else None)
+                ag = ans if name == "grad" else (ans[1] if name == "fun_and_grad" else None)
+                if af is not None:
+                    want = mon.f(xr.copy()) * fac
+                    if not (float(af) == float(want) or (af != af and want != want)):
+                        mon.out.violate("stale_or_wrong_value", f"inside a solver run: {name} at {xr.tolist()} answered f={af!r}, fresh value x scaling ({fac!r}) = {want!r}",
+                                        mode="callable", what="solver_fun")
+                if ag is not None and mon.exact:
+                    want = mon.g(xr.copy()) * fac
+                    if not np.array_equal(np.asarray(ag), want, equal_nan=True):
+                        mon.out.violate("stale_or_wrong_gradient", f"inside a solver run: {name} at {xr.tolist()} answered g={np.asarray(ag).tolist()}, fresh gradient x "
+                                        f"scaling ({fac!r}) = {want.tolist()}", mode="callable", what="solver_grad")
+                return ans
+
+            setattr(cls, name, method)
+
+        for nm in ("fun", "grad", "fun_and_grad"):
+            wrap(nm)
+        return self
+
+    def __exit__(self, *a):
+        for nm, orig in self.saved.items():
+            setattr(self.S.ScalarFunction, nm, orig)
+        return False
+
+
 def run_solver_log(spec, out):
     """The wrapper as the solver drives it: runs pushed to machine precision (ftol = gtol = 0, starved and ample line searches, failed
-    searches and memory reboots at the end), every user call logged. With a callable gradient the user's objective (gradient) must
-    never be called twice in a row at the same point, and nfev / njev equal the calls."""
+    searches and memory reboots at the end), with and without gradient scaler, continued from their own checkpoints, from ordinary and
+    from astronomically far starts, with exact and finite-difference gradients, on objectives that are nan outside their domain.
+    Every user call is logged and every answer of the wrapper is compared with a fresh evaluation (AnswerMonitor). The user's
+    objective (gradient) must never be called twice in a row at the same point, and nfev / njev equal the calls."""
     from lbfgsb import minimize_lbfgsb
 
     rng = np.random.default_rng(spec["seed"])
     n = int(rng.integers(1, 6))
+    scen = spec.get("scenario", "plain")
+    far = scen == "far_restart"
     c = rng.standard_normal(n) * float(10.0 ** rng.integers(0, 9)) / 3.0  # minimiser not a round number, coordinates up to 1e8
     w = np.exp(rng.uniform(-1, 1, n))
     kind = int(rng.integers(0, 3))
+    mode = spec.get("mode", "callable")
     flog, glog = [], []
 
-    def fun(x):
-        flog.append(np.array(x, copy=True))
+    def f_pure(x):
+        if scen == "nan_domain":
+            with np.errstate(invalid="ignore", divide="ignore"):
+                return float(np.sum(w * (x - np.log(x))))  # nan for x < 0
         d = x - c
         return float(np.sum(w * d * d) + (0.1 * np.sum(d ** 4) if kind == 1 else 0.0) + (np.sum(np.cos(d)) if kind == 2 else 0.0))
 
-    def jac(x):
-        glog.append(np.array(x, copy=True))
+    def g_pure(x):
+        if scen == "nan_domain":
+            with np.errstate(invalid="ignore", divide="ignore"):
+                return w * (1.0 - 1.0 / x)
         d = x - c
         return 2 * w * d + (0.4 * d ** 3 if kind == 1 else 0.0) - (np.sin(d) if kind == 2 else 0.0)
 
-    x0 = c + rng.standard_normal(n) * float(np.exp(rng.uniform(-2, 3)))
-    lb = np.where(rng.random(n) < 0.3, c - np.abs(rng.standard_normal(n)), -np.inf)
-    ub = np.where(rng.random(n) < 0.3, c + np.abs(rng.standard_normal(n)), np.inf)
-    x0 = np.clip(x0, lb, ub)
-    res = minimize_lbfgsb(x0=x0, fun=fun, jac=jac, bounds=np.column_stack([lb, ub]), ftol=0.0, gtol=0.0, maxiter=300, maxfun=3000,
-                          maxls=int([1, 2, 5, 20, 20][int(rng.integers(0, 5))]), maxcor=int(rng.integers(1, 8)))
-    out.count("solver_runs_logged")
+    def fun(x):
+        flog.append(np.array(x, copy=True))
+        return f_pure(x)
+
+    def jac(x):
+        glog.append(np.array(x, copy=True))
+        return g_pure(x)
+
+    if scen == "nan_domain":
+        x0 = np.exp(rng.uniform(-2, 2, n))
+        lb, ub = np.full(n, -np.inf), np.full(n, np.inf)
+    else:
+        x0 = c + rng.standard_normal(n) * float(np.exp(rng.uniform(-2, 3)))
+        lb = np.where(rng.random(n) < 0.3, c - np.abs(rng.standard_normal(n)), -np.inf)
+        ub = np.where(rng.random(n) < 0.3, c + np.abs(rng.standard_normal(n)), np.inf)
+        if far:
+            x0 = rng.choice([-1.0, 1.0], n) * 10.0 ** rng.uniform(18.5, 20.0, n)
+            lb, ub = np.full(n, -np.inf), np.full(n, np.inf)
+        x0 = np.clip(x0, lb, ub)
+    kw = dict(fun=fun, jac=jac if mode == "callable" else mode, bounds=np.column_stack([lb, ub]), ftol=0.0, gtol=0.0, maxfun=3000,
+              maxls=int([1, 2, 5, 20, 20][int(rng.integers(0, 5))]), maxcor=int(rng.integers(1, 8)))
+    s1 = float(np.exp(rng.uniform(np.log(1e-2), np.log(1e2)))) if scen in ("scaler", "far_restart", "restart") and rng.random() < 0.8 else None
+    legs = [dict(maxiter=300)]
+    if scen == "restart":
+        legs = [dict(maxiter=int(rng.integers(1, 6))), dict(maxiter=300)]
+    if far:
+        legs = [dict(maxiter=0), dict(maxiter=3)]
+    res = None
+    ck_counts = (0, 0)
+    boundaries = {"objective": set(), "gradient": set()}  # first call index of each leg (each leg has its own wrapper)
+    with AnswerMonitor(out, f_pure, g_pure, mode == "callable"):
+        for li, leg in enumerate(legs):
+            k2 = dict(kw, **leg)
+            if li == 0 and s1 is not None:
+                k2["gradient_scaler"] = lambda x, gr, a, b: s1
+            if res is not None:
+                k2["checkpoint"] = res
+                ck_counts = (int(res.nfev), int(res.njev))
+                k2["x0"] = np.array(res.x, copy=True)
+                k2["maxiter"] = int(res.nit) + leg["maxiter"]
+            else:
+                k2["x0"] = x0
+            n_f0, n_g0 = len(flog), len(glog)
+            boundaries["objective"].add(n_f0)
+            boundaries["gradient"].add(n_g0)
+            res = minimize_lbfgsb(**k2)
+            out.count("solver_runs_logged")
+            if li > 0:
+                out.count("solver_restart_legs_logged")
+            if res.nfev != ck_counts[0] + len(flog) - n_f0 if li > 0 else res.nfev != len(flog):
+                out.violate("nfev_drift", f"solver run n={n} leg {li}: nfev={res.nfev} but the objective was called {len(flog) - n_f0} times in this leg "
+                            f"(checkpoint: {ck_counts[0]})", mode=str(mode))
+            if mode == "callable" and (res.njev != ck_counts[1] + len(glog) - n_g0 if li > 0 else res.njev != len(glog)):
+                out.violate("ngev_drift", f"solver run n={n} leg {li}: njev={res.njev} but the gradient was called {len(glog) - n_g0} times in this leg "
+                            f"(checkpoint: {ck_counts[1]})", mode=str(mode))
     out.count("requests", len(flog) + len(glog))
+    out.count("solver_scenario:" + scen)
     if "LNSRCH" in str(res.message):
         out.count("solver_runs_ending_in_failed_line_search")
     for name, log in (("objective", flog), ("gradient", glog)):
         for k in range(1, len(log)):
+            if k in boundaries[name]:
+                continue
             out.count("consecutive_solver_calls_checked")
-            if np.array_equal(log[k], log[k - 1]):
-                out.violate("reevaluated_known_point", f"solver run n={n} ({res.message!r}, nit={res.nit}): the user's {name} was called twice in a row at the same "
-                            f"point (calls #{k - 1} and #{k})", mode="callable", what="solver_" + name)
+            if np.array_equal(log[k], log[k - 1], equal_nan=True):
+                out.violate("reevaluated_known_point", f"solver run n={n} scenario={scen} mode={mode} ({res.message!r}, nit={res.nit}): the user's {name} was called twice "
+                            f"in a row at the same point (calls #{k - 1} and #{k})", mode=str(mode), what="solver_" + name)
                 break
-    if res.nfev != len(flog):
-        out.violate("nfev_drift", f"solver run n={n}: nfev={res.nfev} but the objective was called {len(flog)} times", mode="callable")
-    if res.njev != len(glog):
-        out.violate("ngev_drift", f"solver run n={n}: njev={res.njev} but the gradient was called {len(glog)} times", mode="callable")
     out.nontrivial = True
     out.key = f"solver/{spec['seed']}"
     out.sample = dict(spec=spec, message=str(res.message), nit=int(res.nit), calls=len(flog))
